@@ -17,4 +17,4 @@ cargo test --workspace --no-fail-fast --offline 2>&1 | grep -E "^test result|^er
 echo "demo pristine: $(cat /tmp/sv_pristine.txt | tr '\n' ' ')"
 echo "demo patched : $(cat /tmp/sv_patched.txt | tr '\n' ' ')"
 echo "suite patched: $(grep -c 'test result: ok' /tmp/sv_suite.txt) ok, $(grep -c 'FAILED\|^error' /tmp/sv_suite.txt) failed"
-if grep -q "test result: ok" /tmp/sv_pristine.txt && grep -q "FAILED" /tmp/sv_patched.txt && ! grep -q "FAILED\|^error" /tmp/sv_suite.txt; then echo SEED-OK; else echo SEED-REJECT; exit 1; fi
+if grep -q "test result: ok" /tmp/sv_pristine.txt && grep -q "FAILED\|error: test failed" /tmp/sv_patched.txt && ! grep -q "FAILED\|^error" /tmp/sv_suite.txt; then echo SEED-OK; else echo SEED-REJECT; exit 1; fi
